@@ -146,6 +146,103 @@ func (c14) Enumerate(tier string, seed int64, yield func(string, core.Case) bool
 			}
 		}
 	}
+	// cardinality constraints mixed with clauses over 4 variables (5 in thorough)
+	{
+		nv := 4
+		var cards, cls []Con
+		for _, l := range litSets(nv, 3, 4) {
+			for k := 2; k < len(l); k++ {
+				cards = append(cards, Con{T: "atl", L: l, K: k})
+			}
+		}
+		for _, l := range litSets(nv, 2, 3) {
+			cls = append(cls, Con{T: "atl", L: l, K: 1})
+		}
+		for i, a := range cards {
+			for _, b := range cards[i:] {
+				for _, c := range cls {
+					if !emit("cardmix4", Prob{Front: "pb", N: nv, Cs: cpCons(a, b, c)}, 1, false) {
+						return
+					}
+				}
+				if thorough {
+					for _, c := range cards {
+						for _, d := range cls[:24] {
+							if !emit("cardmix4x4", Prob{Front: "pb", N: nv, Cs: cpCons(a, b, c, d)}, 0, false) {
+								return
+							}
+						}
+					}
+				}
+			}
+		}
+	}
+	// MC: a seeded catalogue of mixed clause/cardinality problems (5..10 variables) and ALL their
+	// one-edit neighbours (delete a constraint, flip a literal, degree +-1), each under every
+	// heuristic choice list with <=1 deviation.
+	{
+		nseeds := 1500
+		if thorough {
+			nseeds = 15000
+		}
+		g := &lcg{s: uint64(seed)*7919 + 17}
+		for sd := 0; sd < nseeds; sd++ {
+			n := 5 + int(g.next()%6)
+			m := 3 + int(g.next()%uint64(2*n))
+			var cs []Con
+			for i := 0; i < m; i++ {
+				k := 2 + int(g.next()%4)
+				if k > n {
+					k = n
+				}
+				used := map[int]bool{}
+				var l []int
+				for len(l) < k {
+					v := 1 + int(g.next()%uint64(n))
+					if used[v] {
+						continue
+					}
+					used[v] = true
+					if g.next()&1 == 0 {
+						v = -v
+					}
+					l = append(l, v)
+				}
+				card := 1
+				if g.next()%3 != 0 {
+					card = 1 + int(g.next()%uint64(k))
+				}
+				cs = append(cs, Con{T: "atl", L: l, K: card})
+			}
+			name := fmt.Sprintf("MC/seed%d", sd)
+			if !emit(name, Prob{Front: "pb", N: n, Cs: cpCons(cs...)}, 1, false) {
+				return
+			}
+			for i := range cs {
+				g2 := append(cpCons(cs[:i]...), cpCons(cs[i+1:]...)...)
+				if !emit(name+"-del", Prob{Front: "pb", N: n, Cs: g2}, 1, false) {
+					return
+				}
+				for dk := -1; dk <= 1; dk += 2 {
+					g2 = cpCons(cs...)
+					g2[i].K += dk
+					if g2[i].K < 1 || g2[i].K > len(g2[i].L) {
+						continue
+					}
+					if !emit(name+"-deg", Prob{Front: "pb", N: n, Cs: g2}, 1, false) {
+						return
+					}
+				}
+				for j := range cs[i].L {
+					g2 = cpCons(cs...)
+					g2[i].L[j] = -g2[i].L[j]
+					if !emit(name+"-flip", Prob{Front: "pb", N: n, Cs: g2}, 1, false) {
+						return
+					}
+				}
+			}
+		}
+	}
 	pbn := 0
 	enumConstraintSets(tier, func(fam string, p Prob) bool {
 		switch fam {
@@ -335,6 +432,9 @@ func runC14(c ProbCase, evts *[]learnedEvt) (o optObs) {
 		if evts != nil {
 			if ctl, ok := solverCtl(); ok {
 				ctl.OnLearnedPB = func(_ *solver.Solver, cl *solver.Clause, units []solver.Lit, lvl int) {
+					if len(*evts) >= 5000 { // termination oracle for the conflict loop, which has no choice point
+						panic(solver.VerifAbort{Reason: "more than 5000 cutting-planes conflicts in one execution"})
+					}
 					drain()
 					e := learnedEvt{lvl: lvl, units: litsToInts(units), bound: bound}
 					if cl != nil {
